@@ -963,7 +963,9 @@ class Interp:
         frame.locals[node.name] = val
 
     def s_ClassDef(self, node, frame):
-        raise Unsupported('nested class definition')
+        # a class defined inside a function: its body is evaluated in module scope (closure variables unsupported)
+        info = loader.ClassInfo(node.name, frame.module, node)
+        frame.locals[node.name] = ClassVal(info)
 
     def s_Delete(self, node, frame):
         for t in node.targets:
